@@ -46,9 +46,12 @@ Inductive c13case :=
    both from_status, as_client_error, canonical_reason().is_some() *)
 | CStatus (lo hi : N) (eu cu es cs ac rs : list (N * N))
 | CCtor (k : ctor) (hdrs : list (str * str * bool)) (id : str) (txt : str) (obs : cobs)
+(* [sent]: the x-request-id values the CLIENT put on the request *)
 | CLive (cls : N) (expect_status status : N) (xrid : list str) (own : list str)
-        (saw : option str) (body_rid : option str)
-| CUnique (n : N) (ids : list N).
+        (sent : list str) (saw : option str) (body_rid : option str)
+(* [ids]: the ids of all responses of a batch, [supplied]: every client-sent
+   value that reads as a UUID in any spelling; both as sorted 128-bit numbers *)
+| CUnique (n : N) (ids : list N) (supplied : list N).
 
 (* ----- status sweep ----- *)
 
@@ -252,7 +255,13 @@ Definition handler_runs (cls : N) : bool :=
 Definition framework_body (cls : N) : bool :=
   match cls with 2 | 3 | 5 | 7 | 8 | 9 | 10 => true | _ => false end.
 
-Definition judge_live (cls expect_status status : N) (xrid own : list str)
+(* the 32 hex digits of a UUID in any spelling (upper case, braces, urn:uuid:,
+   no hyphens): the last 32 hex digits of the lower-cased text *)
+Definition uuid_key (s : str) : str :=
+  let h := filter is_lower_hex (str_lower s) in
+  skipn (List.length h - 32)%nat h.
+
+Definition judge_live (cls expect_status status : N) (xrid own sent : list str)
            (saw body_rid : option str) : N :=
   match last_opt xrid, live_request cls status own with
   | _, None => V_MALFORMED
@@ -260,6 +269,8 @@ Definition judge_live (cls expect_status status : N) (xrid own : list str)
   | Some id, Some rq =>
       let spec :=
         uuid_shaped id &&
+        (* the server's own, not one the client chose ("unique per request") *)
+        negb (existsb (fun s => str_eqb (uuid_key id) (uuid_key s)) sent) &&
         (* equal to the id the handler was given *)
         (if handler_runs cls then ostr_eqb saw (Some id)
          else match saw with None => true | Some _ => false end) &&
@@ -298,13 +309,29 @@ Fixpoint strictly_increasing (l : list N) : bool :=
               end
   end.
 
+(* no common element of two ascending lists (fuel: sum of the lengths) *)
+Fixpoint disjoint_sorted (fuel : nat) (a b : list N) : bool :=
+  match fuel with
+  | O => is_nil a || is_nil b
+  | S f =>
+      match a, b with
+      | [], _ | _, [] => true
+      | x :: a', y :: b' =>
+          if x =? y then false
+          else if x <? y then disjoint_sorted f a' b
+          else disjoint_sorted f a b'
+      end
+  end.
+
 Definition judge (c : c13case) : N :=
   match c with
   | CStatus lo hi eu cu es cs ac rs => judge_status lo hi eu cu es cs ac rs
   | CCtor k hdrs id txt o => judge_ctor k hdrs id txt o
-  | CLive cls expect_status status xrid own saw body_rid =>
-      judge_live cls expect_status status xrid own saw body_rid
-  | CUnique n ids =>
-      if (N.of_nat (List.length ids) =? n) && strictly_increasing ids
+  | CLive cls expect_status status xrid own sent saw body_rid =>
+      judge_live cls expect_status status xrid own sent saw body_rid
+  | CUnique n ids supplied =>
+      (* one id per request, pairwise different, none of them client-supplied *)
+      if (N.of_nat (List.length ids) =? n) && strictly_increasing ids &&
+         disjoint_sorted (List.length ids + List.length supplied)%nat ids supplied
       then V_AGREE else V_VIOLATION
   end.
